@@ -3,7 +3,7 @@
 import json, os, shutil, sys, re
 P, k, det = sys.argv[1], sys.argv[2], sys.argv[3]
 note = sys.argv[4] if len(sys.argv) > 4 else ""
-src = "/tmp/mut/%s/mutations/%s" % (P, k)
+src = "%s/%s/mutations/%s" % (os.environ.get("MUTROOT", "/tmp/mut"), P, k)
 dst = "/verif/seeded/%s-%s" % (P, k)
 os.makedirs(dst, exist_ok=True)
 shutil.copy(src + "/patch.diff", dst + "/patch.diff")
